@@ -6,6 +6,7 @@ import GdVerif.Run.GenGs1
 import GdVerif.Run.Gs2
 import GdVerif.Run.GenGs2
 import GdVerif.Run.Master
+import GdVerif.Run.GenMaster
 import GdVerif.Run.Settings
 import GdVerif.Run.Views
 import GdVerif.Run.Games
@@ -90,6 +91,7 @@ def main (args : List String) : IO UInt32 := do
         | "mcjava" | "mcbedrock" | "mclegacy" | "mcauto" => McGen.genMinecraft suite seed n
         | "gs3" => genGs3 seed n
         | "jc2m" => genJc2m seed n
+        | "master" => genMaster seed n
         | s => (smallGen s seed n).getD []
       for l in lines do IO.println l
       return 0
